@@ -202,8 +202,25 @@ class Ctx:
             self.tq += time.time() - t1
             return r3
 
+        # cone of influence: only the hypotheses that (transitively) share a symbol with the goal.  Dropping
+        # hypotheses is sound for `unsat`; a `sat` here is not used.
+        sliced = _cone(self.pc, np_)
+        if len(sliced) < len(self.pc):
+            pur0 = _purify_for_nlsat(sliced + [np_])
+            self.nq += 1
+            t1 = time.time()
+            if pur0 is not None:
+                ns = _nlsat_solver()
+                ns.set("timeout", min(10000, self.timeout_ms))
+                r0 = _guarded_check(ns, pur0[0], min(10000, self.timeout_ms))
+            else:
+                self.set_timeout(min(5000, self.timeout_ms))
+                r0 = _guarded_check(self.s, sliced + [np_], self._cur_timeout())
+            self.tq += time.time() - t1
+            if r0 == z3.unsat:
+                r, relaxed = z3.unsat, True
         # pure non-linear real arithmetic: the nlsat tactic alone is far stronger than the default combination
-        pur = _purify_for_nlsat(list(self.pc) + [np_])
+        pur = _purify_for_nlsat(list(self.pc) + [np_]) if r == z3.unknown else None
         if pur is not None:
             self.nq += 1
             t1 = time.time()
@@ -301,6 +318,51 @@ def _has_toint(f, _cache={}):
         todo.extend(t.children())
     _cache[k] = found
     return found
+
+
+_VARS = {}
+
+
+def _vars_of(f):
+    k = f.get_id()
+    if k in _VARS:
+        return _VARS[k]
+    out, todo, seen = set(), [f], set()
+    while todo:
+        t = todo.pop()
+        i = t.get_id()
+        if i in seen:
+            continue
+        seen.add(i)
+        if z3.is_app(t):
+            if t.num_args() == 0:
+                if t.decl().kind() == z3.Z3_OP_UNINTERPRETED:
+                    out.add(t.decl().name())
+            else:
+                todo.extend(t.children())
+    _VARS[k] = frozenset(out)
+    return _VARS[k]
+
+
+def _cone(pc, goal):
+    """hypotheses sharing a symbol with the goal, transitively (PI is not counted as a link)"""
+    want = set(_vars_of(goal)) - {"PI"}
+    rest = [(f, _vars_of(f) - {"PI"}) for f in pc]
+    keep = []
+    changed = True
+    while changed:
+        changed = False
+        nxt = []
+        for f, vs in rest:
+            if not vs or (vs & want):
+                keep.append(f)
+                if vs - want:
+                    want |= vs
+                    changed = True
+            else:
+                nxt.append((f, vs))
+        rest = nxt
+    return keep
 
 
 _NLSAT = []
